@@ -16,5 +16,5 @@ Next == /\ phase = 0 /\ phase' = 1
              \/ vec' = Ev(T, <<>>, Plain, "empty")
              \/ \E lay \in Lays, d \in 1..Depth : vec' = Ev(T, MsgBytes(S, T, d, lay), lay, "all")
              \/ \E i \in DOMAIN S[T], lay \in { l \in Lays : ~l.rev /\ l.arm = 0 } : vec' = Ev(T, (IF lay.unknown THEN WTag(1999, 0) \o <<1>> ELSE <<>>) \o OneFieldBytes(S, T, i, 1, lay), lay, "one")
-Emit == phase = 1 => PrintT(<<"VEC", ToJson(vec)>>)
+Emit == phase = 1 => PrintT("VEC " \o ToJson(vec))
 =============================================================================
